@@ -191,6 +191,62 @@ def parser_rules(ctx):
         ctx.check(('b', 'insert', 'value') in eff, 'C17.rhs/stores-b', 'T-BRANCHFX', b.name, 'RHS value is not stored in b', b.site())
         for lo in T.for_loops(b):
             loop_must(ctx, 'C17.rhs/every-pair', b, lo, lambda c: c.item == 'insert' and mps_table_of(b, c.args[0]) == 'b', 'b.insert(row, value)')
+    # ---- ranges: the RANGES sign table
+    b = ctx.method('C17.ranges/anchor', ST, 'read_range_field')
+    if b is not None:
+        hdrs = set(b.loops())
+        conts = {}
+        for c in b.calls:
+            if c.item == 'contains' and 'HashSet' in c.name:
+                tab = mps_table_of(b, c.args[0])
+                if tab in ('eq', 'ge', 'le'):
+                    for g in T.guards_from_call(b, c): conts[tab] = g
+        ctx.check(set(conts) == {'eq', 'ge', 'le'}, 'C17.ranges/row-type-tests', 'T-BRANCHFX', b.name, 'row type tests found: %s' % sorted(conts), b.site())
+        def leaf_effects(reg):
+            ops = []
+            for bi, st in b.stmts():
+                if bi in reg and st['rv']['k'] == 'bin' and st['rv'].get('ty') == 'f64' and st['rv']['op'] in ('Add', 'Sub'):
+                    l = T.expr(b, st['rv']['ops'][0], depth=10); r = T.expr(b, st['rv']['ops'][1], depth=10)
+                    base_ok = any(x[0] == 'call' and x[1] == 'get' for x in T.expr_walk(l)) or any(x[0] == 'call' and x[1] in ('unwrap_or', 'copied', 'unwrap_or_default') for x in T.expr_walk(l))
+                    ops.append((st['rv']['op'], 'b' if base_ok else T.expr_str(l, 3), '|r|' if T.expr_has_call(r, 'abs') else ('r' if r[0] in ('local', 'place') else T.expr_str(r, 3))))
+            for c in b.calls:
+                m = T.ARITH_CALL.match(c.name)
+                if c.bb in reg and m and m.group(2) in ('Add', 'Sub'):
+                    l = T.expr(b, c.args[0], depth=10); r = T.expr(b, c.args[1], depth=10)
+                    base_ok = any(x[0] == 'call' and x[1] in ('get', 'unwrap_or', 'copied', 'unwrap_or_default') for x in T.expr_walk(l))
+                    ops.append((m.group(2), 'b' if base_ok else T.expr_str(l, 3), '|r|' if T.expr_has_call(r, 'abs') else ('r' if T.strip_wrappers(r)[0] in ('local', 'place') else T.expr_str(r, 3))))
+            sets = {e[:2] for e in table_effects(ctx, b, reg) if e[0] in ('eq', 'ge', 'le')}
+            return ops, sets
+        if set(conts) == {'eq', 'ge', 'le'}:
+            others = lambda k: {conts[x].true_bb for x in conts if x != k}
+            table = {}
+            ge_ = conts['eq']
+            eq_reg = T.reach_cp(b, [ge_.true_bb], stop=hdrs) - T.reach_cp(b, [ge_.false_bb], stop=hdrs)
+            # sign of the range inside the E case
+            pos = None
+            for bi, st in float_cmp_sites(b, ('Gt', 'Lt', 'Ge', 'Le')):
+                if bi in eq_reg and any(o['k'] == 'const' and o['v'] == '0f64' for o in st['rv']['ops']):
+                    for g in T.guards_from_local(b, st['dst']['l'], bi):
+                        op = st['rv']['op']; cr = st['rv']['ops'][1]['k'] == 'const'
+                        pos_true = (op in ('Gt', 'Ge')) == cr
+                        pos = (g.true_bb, g.false_bb) if pos_true else (g.false_bb, g.true_bb)
+            if pos:
+                pr = T.reach_cp(b, [pos[0]], stop=hdrs) - T.reach_cp(b, [pos[1]], stop=hdrs); nr = T.reach_cp(b, [pos[1]], stop=hdrs) - T.reach_cp(b, [pos[0]], stop=hdrs)
+                table['E+'] = leaf_effects(pr & eq_reg); table['E-'] = leaf_effects(nr & eq_reg)
+            for k, name in (('ge', 'G'), ('le', 'L')):
+                g = conts[k]
+                reg = T.reach_cp(b, [g.true_bb], stop=hdrs) - T.reach_cp(b, [g.false_bb], stop=hdrs)
+                table[name] = leaf_effects(reg)
+            want = {'E+': ([('Add', 'b', '|r|')], {('ge', 'insert'), ('le', 'insert')}), 'E-': ([('Sub', 'b', '|r|')], {('le', 'insert'), ('ge', 'insert')}),
+                    'G': ([('Add', 'b', '|r|')], {('le', 'insert')}), 'L': ([('Sub', 'b', '|r|')], {('ge', 'insert')})}
+            for k in want:
+                got = table.get(k)
+                ctx.check(got is not None and got[0] == want[k][0] and got[1] == want[k][1], 'C17.ranges/' + k, 'T-BRANCHFX', b.name,
+                          'RANGES on a %s row: second right-hand side is %s with sets %s; the format says %s' % (k, got and got[0], got and sorted(got[1]), want[k][0]), b.site(), table=str(got))
+            eqrm = ('eq', 'remove') in {e[:2] for e in table_effects(ctx, b, eq_reg)}
+            ctx.check(eqrm, 'C17.ranges/E-becomes-two-inequalities', 'T-BRANCHFX', b.name, 'a ranged E row is not removed from the equalities', b.site())
+        eff = {e[:2] for e in table_effects(ctx, b, b.live)}
+        ctx.check(('a', 'insert') in eff and ('b', 'insert') in eff, 'C17.ranges/second-row-created', 'T-BRANCHFX', b.name, 'the second row (coefficients and right-hand side) is not created', b.site())
     # ---- bounds
     b = ctx.method('C17.bounds/anchor', ST, 'read_bound_field')
     if b is not None:
@@ -447,5 +503,5 @@ def bound_default_rules(ctx, rule, bb):
 
 def check(ctx):
     parser_rules(ctx); convert_rules(ctx)
-    ctx.floor('C17.keywords', 40); ctx.floor('C17.bounds', 19); ctx.floor('C17.rows', 4); ctx.floor('C17.convert', 6); ctx.floor('C17.convert.cover', 15); ctx.floor('C17.names', 2)
+    ctx.floor('C17.ranges', 7); ctx.floor('C17.keywords', 40); ctx.floor('C17.bounds', 19); ctx.floor('C17.rows', 4); ctx.floor('C17.convert', 6); ctx.floor('C17.convert.cover', 15); ctx.floor('C17.names', 2)
     ctx.floor('C17.convert.sign', 8); ctx.floor('C17.convert.defaults', 7); ctx.floor('C17.convert.kind', 3); ctx.floor('C17.convert.rows', 5); ctx.floor('C17.convert.vars', 5)
